@@ -206,6 +206,24 @@ theorem death_notice_pending {g : G} (h : Reachable g) (hl : g.st = .live) (hb :
   · rw [hdd]; simp
   · exact absurd hb hbd
 
+/-- **notice_forms_recognised** — every form of the death notice, in particular `dying <logfile>` for any log path
+(build logging enabled), is a notice for the first-word test that every read applies. -/
+theorem notice_forms_recognised (f : NoticeForm) : isNoticeLine f.line = true := by
+  cases f with
+  | dying arg =>
+    cases arg with
+    | none => decide
+    | some a =>
+      have : firstWord (wDying ++ ' ' :: a ++ ['\n']) = wDying := by
+        simp [firstWord, wDying, List.takeWhile]
+      simp only [isNoticeLine, NoticeForm.line, this]
+      decide
+  | sigint => decide
+  | sigterm => decide
+
+example : isNoticeLine "dying /var/log/portage/cat:pkg-1:20260922.log\n".toList = true ∧
+    isNoticeLine "dying_not a notice\n".toList = false := by decide
+
 /-! ## the programs of the real API are instances of the quantified client programs -/
 
 theorem wf_replicate_preload (n : Nat) (tail : List POp) (h : wf .main tail = true) :
